@@ -2017,13 +2017,13 @@ def ntdll_LdrGetProcedureAddress(jitter):
 
 def ntdll_memset(jitter):
     ret_ad, args = jitter.func_args_cdecl(['addr', 'c', 'size'])
-    jitter.vm.set_mem(args.addr, int_to_byte(args.c) * args.size)
+    jitter.vm.set_mem(args.addr, int_to_byte(args.c & 0xFF) * args.size)
     jitter.func_ret_cdecl(ret_ad, args.addr)
 
 
 def msvcrt_memset(jitter):
     ret_ad, args = jitter.func_args_cdecl(['addr', 'c', 'size'])
-    jitter.vm.set_mem(args.addr, int_to_byte(args.c) * args.size)
+    jitter.vm.set_mem(args.addr, int_to_byte(args.c & 0xFF) * args.size)
     jitter.func_ret_cdecl(ret_ad, args.addr)
 
 def msvcrt_strrchr(jitter):
